@@ -179,7 +179,7 @@ def gen_tail(rng, n):
         elif k == "df":
             ops.append(["df", f(), f() if rng.random() < 0.4 else None])
         elif k == "h5":
-            ops.append(["h5", f(), f() if rng.random() < 0.5 else None, rng.choice(["a", "a", "w", "setter"])])
+            ops.append(["h5", f(), f() if rng.random() < 0.5 else None, rng.choice(["a", "a", "w", "setter", "handle", "iter"])])
         else:
             e = rng.choice(["insert_atom", "insert_atom", "delete", "delete", "add_bond", "add_atom", "add_residue",
                             "add_chain"])
